@@ -210,7 +210,7 @@ class Built:
     """An implementation input built from a JSON-able case."""
 
     def __init__(self, S, O, costs: dict, labelled: bool = False, unordered: bool = False, blank_internal: bool = False,
-                 dist_seed: Optional[int] = None, fam_scheme: int = 0, name_seed: Optional[int] = None):
+                 dist_seed: Optional[int] = None, fam_scheme: int = 0, name_seed: Optional[int] = None, prime_lca: bool = False):
         from superrec2.model.reconciliation import ReconciliationInput, SuperReconciliationInput
         from superrec2.utils.trees import LowestCommonAncestor
         self.S, self.O, self.costs = S, O, costs
@@ -254,6 +254,18 @@ class Built:
                     n.support = rr.choice([0.0, 0.5, 1.0, 100.0])
         self.opath = node_paths(self.otree)
         self.onode = {p: n for n, p in self.opath.items()}
+        if prime_lca:
+            # history independence of the LCA structure: one is first built while the children of some species nodes
+            # are in the other order; the children are put back and the structure that is used gets built
+            flipped = [n for n in self.stree.traverse() if len(n.children) == 2][::2]
+            for n in flipped:
+                n.children.reverse()
+            try:
+                LowestCommonAncestor(self.stree)
+            except Exception:  # noqa: BLE001
+                pass
+            for n in flipped:
+                n.children.reverse()
         self.lca = LowestCommonAncestor(self.stree)
         if labelled:
             self.input = SuperReconciliationInput(self.otree, self.lca, leafmap, impl_costs(costs), syn)
@@ -382,6 +394,7 @@ def primed(case, solve, **kw):
     kw.setdefault("dist_seed", case.get("dist"))
     kw.setdefault("fam_scheme", case.get("fnames", 0))
     kw.setdefault("name_seed", case.get("names"))
+    kw.setdefault("prime_lca", bool(case.get("prime_lca", False)))
     if case.get("prime") == "topology":
         B = Built(case["S"], case["O"], case["costs"], **kw)
         prime_topology(B, solve)
